@@ -655,7 +655,12 @@ def gen_norm(src: str) -> str:
     reg = find_function(tx, "_register_inflight", cls="Transaction")
     if [a.arg for a in reg.args.args] != ["self", "file_path"]:
         raise Unsupported("_register_inflight signature changed")
-    reg_path, reg_payload = register_terms(reg, {"_INFLIGHT_PATH": "TX_INFLIGHT_PATH"})
+    try:
+        reg_path, reg_payload = register_terms(reg, {"_INFLIGHT_PATH": "TX_INFLIGHT_PATH"})
+    except Unsupported as e:
+        raise Unsupported(f"Transaction._register_inflight (how a marker is NAMED and what its payload says must be a function of the "
+                          f"registered file path alone: the collector's fallback for an unreadable payload derives the protected paths "
+                          f"from the marker's name -- C07_registered_marker_fallback_covers): {e}")
     accept_term, accept_names = acceptance_term(tx)
 
     # hand-modelled control structure: pinned
